@@ -449,5 +449,6 @@ def obligations(tier):
 MANIFEST_ENTRY = {
     'level_note': ('Cut-off lemmas with one symbolic far atom/group each, over the whole PDB coordinate range; closest-pair search over the whole '
                    'range; iterative solver: two disjoint 2-group clusters with all values symbolic, joint run compared with the cluster alone '
-                   '(covers every number of extra sweeps up to the cap of 10). O3: whole pipeline on a micro-structure plus a copy at symbolic separation (25 A, ~1000 A quick; up to 9950 A thorough). Larger clusters and more than two clusters are outside the bound.'),
+                   '(covers every number of extra sweeps up to the cap of 10). O3: whole pipeline on a micro-structure plus a copy at symbolic separation (25 A, ~1000 A quick; up to 9950 A thorough). Larger clusters and more than two clusters are outside the bound.'
+                   ' O3 also with the far copy written into the text (coordinate columns read) and with truncated residues, first part at the origin; O5 coordinate fields as C04-O3.'),
 }
